@@ -1,5 +1,6 @@
 import NrDaemon.Model.Proc
 import NrDaemon.Gen.SwapTable
+import NrDaemon.Lemmas.Ledger
 /-!
   C01 — accepted data is delivered exactly once when the collector accepts.
 
@@ -47,3 +48,70 @@ theorem C01_consider_one_request (s : PState) (a : HArgs) (cat : Cat) (p : Paylo
   · intro h; simp [h]
   · intro h; simp [h]
 
+
+
+/-! ## The ledger of one event category across harvest cycles (`Model/Ledger.lean`) -/
+
+/-- **C01 (every event is in exactly one place, all histories).**  For every capacity, every attempt limit and every
+history of offers, harvests (swap-then-send), acknowledgements, retryable failures (`MergeFailed`) and fatal failures, in
+any order and with any number of requests in flight: the events in the current reservoir, in unanswered requests and
+acknowledged by the collector, together with the events dropped (refused or displaced at capacity, given up at the
+attempt limit, failed fatally), are exactly the events that were offered — as multisets, so nothing is duplicated and
+nothing vanishes unaccounted. -/
+theorem C01_event_ledger (cap limit : Nat) (evs : List CatEvent) :
+    let s := (CatM.init cap limit).run evs
+    ∃ lost, (s.cur.evs.toList ++ s.inflight.flatMap (·.evs.toList) ++ s.acked ++ lost).Perm s.offered :=
+  catRun_conserved _ evs ⟨[], by simp [CatM.init, CatM.held, Res.new]⟩
+
+/-- **C01 (delivered at most once).**  If the offered events are pairwise distinct, no event is acknowledged twice, and an
+acknowledged event is neither waiting in the reservoir nor part of a request still in flight (so it cannot be sent again). -/
+theorem C01_delivered_at_most_once (cap limit : Nat) (evs : List CatEvent)
+    (hd : ((CatM.init cap limit).run evs).offered.Nodup) :
+    let s := (CatM.init cap limit).run evs
+    s.acked.Nodup ∧ ∀ e ∈ s.acked, e ∉ s.cur.evs.toList ∧ e ∉ s.inflight.flatMap (·.evs.toList) := by
+  obtain ⟨lost, hp⟩ := C01_event_ledger cap limit evs
+  have hn := hp.nodup_iff.mpr hd
+  dsimp only
+  simp only [List.nodup_append, List.append_assoc] at hn
+  obtain ⟨_, ⟨_, ⟨hacked, _, _⟩, hdisj2⟩, hdisj1⟩ := hn
+  refine ⟨hacked, fun e he => ⟨?_, ?_⟩⟩
+  · intro hc
+    exact hdisj1 e hc e (by simp [he]) rfl
+  · intro hc
+    exact hdisj2 e hc e (by simp [he]) rfl
+
+/-- **C01 (exactly once when there is room and the collector accepts).**  Events offered to a fresh reservoir that has
+room for all of them, harvested and acknowledged, are delivered — all of them, each once. -/
+theorem C01_all_delivered_when_accepted (cap limit : Nat) (es : List Ev) (hroom : es.length ≤ cap) (hne : es ≠ []) :
+    ((CatM.init cap limit).run (es.map .offer ++ [.harvest, .ack 0])).acked.Perm es := by
+  -- the offers
+  have hoffers : ∀ (l : List Ev) (s : CatM), (s.run (l.map .offer)).cur.evs = l.foldl (resAddArr s.cur.cap) s.cur.evs ∧
+      (s.run (l.map .offer)).cur.cap = s.cur.cap ∧ (s.run (l.map .offer)).inflight = s.inflight ∧
+      (s.run (l.map .offer)).acked = s.acked ∧ (s.run (l.map .offer)).cap = s.cap := by
+    intro l
+    induction l with
+    | nil => intro s; simp [CatM.run]
+    | cons e l ih =>
+      intro s
+      have := ih (s.step (.offer e))
+      simp only [List.map_cons, CatM.run, List.foldl_cons] at *
+      simpa [CatM.step, Res.add] using this
+  have h0 := hoffers es (CatM.init cap limit)
+  have hperm := resFold_room cap es #[] (by simpa using hroom)
+  simp only [CatM.run, List.foldl_append] at *
+  generalize hs : List.foldl CatM.step (CatM.init cap limit) (es.map .offer) = s1 at *
+  obtain ⟨hevs, _, hinf, hack, _⟩ := h0
+  have hevs' : s1.cur.evs = es.foldl (resAddArr cap) #[] := by simpa [CatM.init, Res.new] using hevs
+  have hlen : (es.foldl (resAddArr cap) #[]).size = es.length := by
+    have := hperm.length_eq
+    simpa using this
+  have hpos : 0 < es.length := List.length_pos_iff.mpr hne
+  have hnonempty : s1.cur.evs.isEmpty = false := by
+    rw [hevs']
+    cases hsz : (es.foldl (resAddArr cap) #[]).isEmpty with
+    | false => rfl
+    | true => rw [Array.isEmpty_iff_size_eq_zero] at hsz; omega
+  simp only [List.foldl_cons, List.foldl_nil, CatM.step, hnonempty, Bool.false_eq_true, if_false]
+  simp only [hinf, hack, CatM.init, List.nil_append, List.getElem?_cons_zero]
+  rw [hevs']
+  simpa using hperm
